@@ -36,7 +36,24 @@ type regionRow struct {
 func (r regionRow) edge() string { return fmt.Sprintf("%s[%d]", r.side, r.axis) }
 
 // coordOf recognises p[K] (point parameter) and b.Min[K] / b.Max[K] (bound parameter).
+// coordResolve, when set, is the function whose once-defined locals stand for
+// their definitions (x, y := p[0], p[1]).
+var coordResolve *ast.FuncDecl
+
 func coordOf(pkg *packages.Package, e ast.Expr, pointPar, boundPar types.Object) (kind string, side string, axis int64, ok bool) {
+	if coordResolve != nil {
+		for k := 0; k < 3; k++ {
+			id, isID := ast.Unparen(e).(*ast.Ident)
+			if !isID {
+				break
+			}
+			def := singleDef(pkg, coordResolve, id)
+			if def == nil {
+				break
+			}
+			e = def
+		}
+	}
 	ie, isIdx := ast.Unparen(e).(*ast.IndexExpr)
 	if !isIdx {
 		return
@@ -80,6 +97,8 @@ func extractRegionRows(pkg *packages.Package, fd *ast.FuncDecl) ([]regionRow, st
 			}
 		}
 	}
+	coordResolve = fd
+	defer func() { coordResolve = nil }()
 	if pointPar == nil || boundPar == nil {
 		return nil, "not a (Bound, Point) function"
 	}
